@@ -30,6 +30,8 @@ def run(tier, seed):
     add_cons(rep, "C17")
     from ..propbase import deductive
     deductive(rep, "C17", ["markdown_it.rules_block.state_block.StateBlock.__init__"], "contracts.block")
+    deductive(rep, "C17", ["markdown_it.rules_inline.escape.escape"], "contracts.inline")
+    deductive(rep, "C17", ["markdown_it.rules_inline.newline.newline"], "contracts.inline2")
     lines_universe(rep, "vf.oracles2:c17_lineend", tier, "MarkdownIt.parse/render", "LF <-> CRLF <-> CR give identical tokens (incl. maps) and HTML; NUL == U+FFFD; no CR/NUL in any content", cfgs=["commonmark", "js-default"])
     lines_universe(rep, "vf.oracles2:c17_tabs", tier, "MarkdownIt.parse", "leading tabs == column-exact spaces (blocks, nesting, maps, text)", cfgs=["commonmark", "cm+table+strike"])
     rep.bounded.append(bounded.run("vf.oracles2:c17_marker_tabs", "list", 0, ["commonmark"], "rules_block.blockquote / list_block", "a tab after a block quote or list marker == spaces up to the next multiple-of-four physical column",
